@@ -1226,3 +1226,33 @@ func TestVerif_C02_Shares(t *testing.T) {
 		}
 	})
 }
+
+// TestVerif_C02_SharesRace: a sample of the same executions under the race
+// detector. The only goroutine the protocol code itself starts is the public
+// key share computation of phase 12, which works on the same curve points as
+// the result the member returns.
+func TestVerif_C02_SharesRace(t *testing.T) {
+	r := verifkit.Start(t, "C02", "shares_race")
+	defer r.Finish()
+	r.SetRule("every 25th case of the C01/C02 case list (curated ones first), executed under the race detector; after each run the result's group public key bytes, the private share and the public key shares are read as a caller would; verdict from the detector's log (accesses attributed to pkg/beacon/gjkr production files)")
+	cases := c01Cases(r)
+	n := 0
+	for i := 0; i < len(cases); i += 25 {
+		c := cases[i]
+		desc := c.String()
+		var o *c01Outcome
+		if r.Guard("shares-race:", desc, func() { o = c01Execute(c) }) {
+			continue
+		}
+		fin, _ := c01HonestResults(o)
+		for _, m := range fin {
+			r.Guard("shares-race:", desc, func() {
+				_, _ = m.result.GroupPublicKeyBytes()
+				_ = m.result.GroupPublicKeyShares()
+			})
+		}
+		r.Case(desc, len(fin) > 0)
+		n++
+	}
+	r.Count("runs_under_race_detector", int64(n))
+}
